@@ -36,7 +36,7 @@ func legacyVariants() []legacyVariant {
 
 func c06NumGen(tier string) int {
 	if tier == "thorough" {
-		return 10000
+		return 4500
 	}
 	return 700
 }
